@@ -60,6 +60,7 @@ func main() {
 		"Async.lean":    genAsync(pkg),
 		"WriteSet.lean": genWriteSet(pkg),
 		"Api.lean":      genApi(pkg),
+		"Storage.lean":  genStorage(pkg),
 	}
 	// the parser translation fails loudly: the other outputs are still written, ParserGen.lean is
 	// replaced by a file that does not compile, and the exit status is non-zero
